@@ -308,9 +308,8 @@ func (c *Ctx) modeConv(v *Val, t types.Type, fromI, fromF, toI, toF string) *Val
 	}
 	switch classify(t) {
 	case TFloat:
-		if fromF == toF {
-			return v
-		}
+		// decided by the actual representation: a value loaded from a field keeps the modes of the package
+		// declaring the struct, whatever the modes of the function reading it
 		want := floatSortOf(toF)
 		if v.T.Sort == want {
 			return v
